@@ -25,8 +25,10 @@ def gen(tier, rng):
     for _ in range(N):
         root = rng.choice(["cube", "cube", "cube", "seq", "coll"])
         cfg = {"root": root, "nd": rng.choice([2, 3]), "mask": rng.random() < 0.5, "unc": rng.choice([None, "std", "var", "unknown"]),
-               "ec": rng.choice(["none", "q", "time", "skymesh", "sky", "q+time"]), "pre": rng.choice(["plain", "plain", "sliced", "rebinned"]),
+               "ec": rng.choice(["none", "q", "time", "skymesh", "sky", "q+time", "q3", "q3"]), "pre": rng.choice(["plain", "plain", "sliced", "rebinned"]),
                "seed": rng.randrange(10 ** 9), "nsteps": rng.choice([2, 3, 4, 5, 6])}
+        if cfg["ec"] == "q3":
+            cfg["nd"] = 3
         key = repr(cfg)
         cases.append({"key": key, "stratum": f"{root}-{cfg['ec']}-{cfg['pre']}", "cfg": cfg, "nontrivial": True, "show": cfg})
     return cases
@@ -53,7 +55,14 @@ def _mk_cube(cfg, rng, shape=None, cid=0):
     a0 = 1 if pre == "sliced" else 0
     n0, n1 = full[a0], full[a0 + 1]
     ec = cfg["ec"]
-    if "q" in ec:
+    if ec == "q3" and len(full) - a0 >= 3:
+        # one Quantity coordinate made of three tables over three axes
+        from ndcube.extra_coords.table_coord import QuantityTableCoordinate
+        names = ["qa", "qb", "qc"]
+        tabs = [(np.arange(full[a0 + k]) * (k + 2) + k) * u.m for k in range(3)]
+        c.extra_coords.add(names, (a0, a0 + 1, a0 + 2),
+                           QuantityTableCoordinate(*tabs, names=names, physical_types=["custom:qa", "custom:qb", "custom:qc"]))
+    elif "q" in ec:
         c.extra_coords.add("q", a0, (np.arange(n0) * 2 + 1) * u.m)
     if "time" in ec:
         c.extra_coords.add("t", a0 + 1, Time("2020-01-01T00:00:00") + np.arange(n1) * 10 * u.s)
@@ -230,13 +239,19 @@ def run(case):
         try:
             if kind == "cube":
                 shape = o.data.shape
-                ops = ["slice", "slice", "crop", "rebin", "arith", "arith", "squeeze", "explode", "reproject", "unwrap", "query", "query"]
+                ops = ["slice", "slice", "slice_int", "crop", "rebin", "rebin", "arith", "arith", "squeeze", "explode", "reproject", "unwrap", "query", "query"]
                 op = rng.choice(ops)
                 desc, res, rk, opk = op, None, "cube", None
                 if op == "slice":
                     item = _rand_item(rng, shape)
                     desc = f"#{i}[{item}]"
                     res, opk = o[item], "KSlice"
+                elif op == "slice_int":
+                    if len(shape) >= 2:
+                        ax = rng.randrange(len(shape))
+                        item = tuple(rng.randrange(n) if k == ax else slice(None) for k, n in enumerate(shape))
+                        desc = f"#{i}[{item}]"
+                        res, opk = o[item], "KSlice"
                 elif op == "crop":
                     ll = o.wcs.low_level_wcs
                     p1 = [rng.randrange(n) for n in shape[::-1]]
@@ -250,8 +265,22 @@ def run(case):
                     res, opk = o.crop_by_values([float(x) * u.Unit(q) for x, q in zip(w1, un)], [float(x) * u.Unit(q) for x, q in zip(w2, un)], keepdims=True), "KCrop"
                 elif op == "rebin":
                     bins = tuple(rng.choice([d for d in (1, 2) if n % d == 0]) for n in shape)
-                    desc = f"#{i}.rebin({bins})"
-                    res, opk = o.rebin(bins), "KRebin"
+                    if rng.random() < 0.4:          # along a single axis only
+                        ax = rng.randrange(len(shape))
+                        bins = tuple((2 if (k == ax and n % 2 == 0) else 1) for k, n in enumerate(shape))
+                    kw = {}
+                    if o.uncertainty is not None and rng.random() < 0.6:
+                        kw["propagate_uncertainties"] = True
+                    if rng.random() < 0.4:
+                        kw["operation"] = rng.choice([np.sum, np.mean])
+                    if rng.random() < 0.3:
+                        kw["operation_ignores_mask"] = True
+                    desc = f"#{i}.rebin({bins}, {', '.join(f'{a}={getattr(b, chr(95) * 2 + 'name' + chr(95) * 2, b)}' for a, b in kw.items())})"
+                    res, opk = o.rebin(bins, **kw), "KRebin"
+                    if rng.random() < 0.5:
+                        o.rebin(bins, **kw)           # and once more: the same question must have the same answer
+                        if _deep(snap_cube(o.rebin(bins, **kw))) != _deep(snap_cube(res)):
+                            why.append(f"step {step}: {desc} gave two different answers")
                 elif op == "arith":
                     which = rng.choice(["mul", "add", "sub", "neg", "pow", "to", "rdiv"])
                     desc = f"arith {which} on #{i}"
